@@ -24,7 +24,7 @@ META = dict(
     technique="explicit-state depth-first search over create/drop/call/collect histories where every state is a real "
               "process cloned with fork() (allocator state included), from initial states at each closure-page boundary",
     text="From 0, c-1, c, c+2c-1, c+2c and c+2c+3c-1.. live callbacks (c = closures per 4096-byte page, measured), all "
-         "histories of depth <= 4 (quick; thorough 5) over: create a callback with signature A or B in the lowest free "
+         "histories of depth <= 4 (quick; thorough 5, from more page boundaries) over: create a callback with signature A or B in the lowest free "
          "of 3 slots, drop a slot, call through the cdata, call from C through the raw address, gc.collect().  After "
          "every step all live addresses (background included) are pairwise distinct, every slot callback and two "
          "background callbacks return their own token with their own signature.",
@@ -265,9 +265,9 @@ def run(ctx):
         raise InfraError("could not find a closure page boundary")
     ctx.log("closure stride %d bytes, page boundaries after %r callbacks" % (stride, bounds[:5]))
     Ls = [0]
-    for b in bounds[:2 if ctx.quick else 4]:
+    for b in bounds[:2 if ctx.quick else 3]:
         Ls += [b - 1, b]
-    depth = 4 if ctx.quick else 6
+    depth = 4 if ctx.quick else 5
     first_ops = [("new", "A"), ("new", "B"), ("collect",)]
     items = [(L, f, depth) for L in Ls for f in first_ops]
     # split further: second-level ops for the 'new' subtrees are the expensive part; keep one level
